@@ -50,7 +50,14 @@ TRUSTED = ["IEEE-754: the test inputs are small integers / dyadic fractions, for
            "CPython semantics modelled in Core/Selection.lean: sorted (stable, reverse keeps ties in order), max(key=) "
            "returns the first maximum, random.uniform(a,b) = a+(b-a)*random(), numpy.median = mean of the two middle "
            "elements; harness/tape.py reports the random module's results faithfully",
-           "crowding distance inf is transported as 10^6 (only compared with < and >)"]
+           "crowding distance inf is transported as 10^6 (only compared with < and >)",
+           "translator tie: harness/py2lean_c06.py (its docstring lists the accepted Python sub-language and every rendering "
+           "rule: individuals as positions, attribute access as lookup of the position's data, sorted/max with "
+           "key=attrgetter(fit_attr) as the model's stable sort / first maximum on the C01 order, random.* as tape reads, loops "
+           "with state, break, while with a derived bound) renders the source faithfully and refuses everything else; "
+           "lean/DeapModel/Core/GenPreludeC06.lean (tape monad, forLoop / whileLoop, choice / shuffle / sample / uniform) and the "
+           "tape readers and Python built-ins of Core/Selection.lean mean what their docstrings say; the parameter types of "
+           "harness/props/c06_translate.py (individuals: list of positions, k / tournsize: naturals, epsilon: exact rational)"]
 ASSUMPTIONS = ["an 'individual' of a population is a POSITION of the list (an object listed at m positions owns m wheel "
                "sectors / may be returned 2m times by the crowding tournament; identity observes the total of its positions)",
                "populations of 1..N evaluated individuals of one fitness class with non-zero weights; k >= 0 "
@@ -63,9 +70,37 @@ EXPLANATION = ("Theorems C06.* hold for every population, k and tape over exact 
                "replayed against the real operators with the tape of their own random draws and results compared as "
                "input indices (identity by `is`); the statement is evaluated as an oracle on the real result.  Sessions of several "
                "calls over base / derived fitness classes are replayed in one process against Selection.runHistory "
-               "(theorem sel_history_independent: a call's result does not depend on what was called before).")
+               "(theorem sel_history_independent: a call's result does not depend on what was called before).  Translator tie: "
+               "on every run selRandom / selBest / selWorst / selTournament / selRoulette / selStochasticUniversalSampling are "
+               "re-read from the source under test, rendered as Lean definitions Gen.<f> (harness/py2lean_c06.py; selLexicase, "
+               "selEpsilonLexicase, selTournamentDCD are rendered too but have no equality theorem yet; selDoubleTournament and "
+               "selAutomaticEpsilonLexicase are refused: functools.partial, numpy.median) and the kernel re-checks "
+               "Gen.<f> pop w (range n) … tape = Selection.<f> … tape for every population, parameter and tape; the table of this "
+               "run is evidence/C06.translated.json.")
 
 INF_TOKEN = "1000000"
+
+
+def translate(repo):
+    """translator tie (lib._translated_obligations): Lean definitions `Gen.<operator>` regenerated from `repo`'s current
+    deap/tools/selection.py / emo.py (harness/py2lean_c06.py) + the committed theorems `Gen.<f> … = Selection.<f> …` of
+    lean/DeapModel/GenEq/C06.lean.tmpl"""
+    from props import c06_translate
+    import json
+    import os
+    import lib
+    tr = c06_translate.translate(repo)
+    try:
+        os.makedirs(os.path.join(lib.OUT, "evidence"), exist_ok=True)
+        with open(os.path.join(lib.OUT, "evidence", "C06.translated.json"), "w") as fh:
+            json.dump({"definitions": len(tr["definitions"]), "theorems": len(tr["theorems"]),
+                       "refused": len(tr["refused"]), "problems": tr["problems"],
+                       "functions": [dict(file=f, name=n, status=st, detail=d) for f, n, st, d in tr["table"]],
+                       "theorem_names": tr["theorems"]}, fh, indent=1)
+            fh.write("\n")
+    except OSError:
+        pass
+    return tr
 
 
 # ------------------------------------------------------------------------------------------
